@@ -2,6 +2,7 @@ package utils
 
 import (
 	"fmt"
+	"net"
 	"net/http"
 	"strings"
 )
@@ -43,11 +44,16 @@ func NewExtractor(variable string) (SourceExtractor, error) {
 }
 
 func extractClientIP(req *http.Request) (string, int64, error) {
-	vals := strings.SplitN(req.RemoteAddr, ":", 2)
-	if vals[0] == "" {
+	// RemoteAddr is "host:port", and "[host]:port" for IPv6 (the host then contains colons itself)
+	host, _, err := net.SplitHostPort(req.RemoteAddr)
+	if err != nil {
+		// not in host:port form, keep everything before the first colon as before
+		host = strings.SplitN(req.RemoteAddr, ":", 2)[0]
+	}
+	if host == "" {
 		return "", 0, fmt.Errorf("failed to parse client IP: %v", req.RemoteAddr)
 	}
-	return vals[0], 1, nil
+	return host, 1, nil
 }
 
 func extractHost(req *http.Request) (string, int64, error) {
